@@ -21,7 +21,7 @@ PLAN  = {"quick":    {"shards": 16, "cases": 32,  "timeout": 1500, "budget_s": 1
          "thorough": {"shards": 16, "cases": 320, "timeout": 7000, "budget_s": 1500, "points": 400, "mp_every": 25}}
 REQUIRED = ["oracle.resumed==reference", "oracle.no-recorded-triple-reevaluated", "oracle.pending-evaluated-once", "oracle.no-duplicate-record",
             "oracle.from_file==returned", "crash.record-boundary", "crash.inside-record", "crash.gz", "kill.prefix-model-validated",
-            "resume.multiproc", "big-log.cases"]
+            "resume.multiproc", "big-log.cases", "observed.logs-with-non-ascii-params"]
 ASSUMPTIONS = ["a killed run leaves a byte-prefix of the log it would have written (validated by the real-kill runs: append only, flush per line, single writer)",
                "only complete records count as recorded; parameter records (E/L/V) may legitimately be written again"]
 
@@ -81,10 +81,15 @@ def _crash_points(rng, blob, recs, gz, budget):
         else:
             add(s + 1, "inside-record-first"); add((s + e) // 2, "inside-record-middle"); add(e - 1, "inside-record-before-newline"); add(e - 2, "inside-record-last")
     for _ in range(budget): add(rng.randrange(len(blob) + 1), "inside-record" if not gz else "gz-body")
+    if not gz:
+        # a cut in front of a UTF-8 continuation byte leaves the lead byte of a character without its tail
+        inside = [n for n in range(len(blob)) if 0x80 <= blob[n] <= 0xBF]
+        for n in rng.sample(inside, min(len(inside), 8)): pts[n] = "inside-multibyte-character"
     items = sorted(pts.items())
+    ALWAYS = ("empty-file", "complete-log", "inside-multibyte-character")
     if len(items) > budget:
-        keep = [it for it in items if it[1] in ("empty-file", "complete-log")]
-        rest = [it for it in items if it[1] not in ("empty-file", "complete-log")]
+        keep = [it for it in items if it[1] in ALWAYS]
+        rest = [it for it in items if it[1] not in ALWAYS]
         rng.shuffle(rest)
         items = sorted(keep + rest[:budget])
     return items
@@ -130,6 +135,8 @@ def check_case(case, ctx=None, only_points=None):
         cref = X.canon_result(ref)
         blob = open(refp, "rb").read()
         recs = _records(blob, gz)
+        if any(l.get("uni") for l in spec["lrns"]) and any(r[0] == "L" and "note" in json.dumps(r[2:] if len(r) > 2 else r) for _, _, r in recs):
+            note("observed.logs-with-non-ascii-params")
         ek, lk, vk = _keys_from_reference(ref)
         all_I = [tuple(r[1]) if len(r[1]) == 3 else (r[1][0], r[1][1], 0) for _, _, r in recs if r[0] == "I"]
         # every listed triple (ids are assigned by first appearance), also those whose evaluation fails and is therefore never
